@@ -81,9 +81,14 @@ pub enum Principal {
     ContractNamingItself,
     /// a contract invokes the entry point naming another address, with no authorisation entries
     ContractNamingOther,
+    /// every address argument is the called contract's own address, and nobody authorises anything
+    /// (the contract is not its own caller: it must not be made to pay / send / act for itself)
+    AllAddressesAliasCalledContract,
+    /// every address argument is the named address, which does not authorise
+    AllAddressesAliasNamedNobodySigns,
 }
 
-const PRINCIPALS: [Principal; 8] = [
+const PRINCIPALS: [Principal; 10] = [
     Principal::Named,
     Principal::Counterparty,
     Principal::ContractOwner,
@@ -92,6 +97,8 @@ const PRINCIPALS: [Principal; 8] = [
     Principal::NamedOtherArgs,
     Principal::ContractNamingItself,
     Principal::ContractNamingOther,
+    Principal::AllAddressesAliasCalledContract,
+    Principal::AllAddressesAliasNamedNobodySigns,
 ];
 
 #[derive(Clone, Debug, Serialize, Deserialize)]
@@ -167,6 +174,13 @@ fn build<'a>(case: &Case, named_is_probe: bool) -> W<'a> {
     }
     s.token.add_minter(&named);
     s.ops.add_operator(&named);
+    // the contracts themselves hold funds too (so that "acting for itself" would have something to move)
+    for a in [&s.token.address, &s.gas.address, &s.gw.address, &s.its.address, &s.ops.address, &example_id] {
+        s.token.mint(a, &1000);
+        s.fund(a, 1000);
+    }
+    s.token.add_minter(&s.token.address);
+    s.ops.add_operator(&s.ops.address);
     // ITS: trusted chain, a token deployed by `named`, a registered canonical asset
     s.its.set_trusted_chain(&sstr(&env, "ethereum"));
     let ds = s.its.interchain_token_deploy_salt(&named, &BytesN::from_array(&env, &ITS_SALT));
@@ -206,10 +220,16 @@ fn build<'a>(case: &Case, named_is_probe: bool) -> W<'a> {
 
 /// (contract, function, args) of the studied call; `alt` = second argument list
 fn invocation(w: &W, ep: Ep, amount: i128, alt: bool) -> (Address, &'static str, SVec<Val>) {
+    invocation_with(w, ep, amount, alt, w.named.clone(), w.counterparty.clone())
+}
+
+fn called_contract(w: &W, ep: Ep) -> Address {
+    invocation(w, ep, 1, false).0
+}
+
+fn invocation_with(w: &W, ep: Ep, amount: i128, alt: bool, n: Address, c: Address) -> (Address, &'static str, SVec<Val>) {
     let env = &w.s.env;
     let s = &w.s;
-    let n = w.named.clone();
-    let c = w.counterparty.clone();
     let a: i128 = if alt { amount + 1 } else { amount };
     let exp = env.ledger().sequence() + 100;
     let gas = Token { address: s.asset.clone(), amount: a };
@@ -317,10 +337,10 @@ impl Property for C07 {
         "C07"
     }
     fn rule(&self) -> &'static str {
-        "every case = (one of 17 entry points that debit / burn / pay gas from / send as / consume for / deploy under the name of / execute as an operator a named address: token approve, transfer, transfer_from, burn, burn_from, mint_from; gas pay_gas, add_gas; gateway call_contract, validate_message; ITS deploy_interchain_token, deploy_remote_interchain_token, interchain_transfer (burn and lock paths), deploy_remote_canonical_token; operators execute; example send) x (one of 8 authoriser classes: the named address, its counterparty (recipient / allowance grantor / sender), the owner of the called contract, a stranger, nobody, the named address for other arguments, a contract naming itself without entries, a contract naming another address) x world state (with / without an allowance held by the counterparty; with / without / with an expired grantor's allowance for delegated spends; named address = an ordinary account or the token's owner/minter; amount 1..40). The full 17x8 matrix is enumerated in every run for both allowance states; proptest samples amounts. Engine: the authorisation trees (incl. nested burn / gas-payment nodes) are recorded in a twin world with all auths mocked and replayed in a fresh identical world signed by exactly one principal. Oracle: success iff the named address authorised (or is the directly calling contract); every refusal leaves the ledger snapshot identical. non-trivial = authoriser is not simply the named address; distinct by Debug hash"
+        "every case = (one of 17 entry points that debit / burn / pay gas from / send as / consume for / deploy under the name of / execute as an operator a named address: token approve, transfer, transfer_from, burn, burn_from, mint_from; gas pay_gas, add_gas; gateway call_contract, validate_message; ITS deploy_interchain_token, deploy_remote_interchain_token, interchain_transfer (burn and lock paths), deploy_remote_canonical_token; operators execute; example send) x (one of 10 authoriser classes: the named address, its counterparty (recipient / allowance grantor / sender), the owner of the called contract, a stranger, nobody, the named address for other arguments, a contract naming itself without entries, a contract naming another address, every address argument aliased to the called contract itself or to the named address with nobody signing) x world state (with / without an allowance held by the counterparty; with / without / with an expired grantor's allowance for delegated spends; named address = an ordinary account or the token's owner/minter; amount 1..40). The full 17x10 matrix is enumerated in every run for both allowance states; proptest samples amounts. Engine: the authorisation trees (incl. nested burn / gas-payment nodes) are recorded in a twin world with all auths mocked and replayed in a fresh identical world signed by exactly one principal. Oracle: success iff the named address authorised (or is the directly calling contract); every refusal leaves the ledger snapshot identical. non-trivial = authoriser is not simply the named address; distinct by Debug hash"
     }
     fn fixed_is_exhaustive(&self) -> Option<&'static str> {
-        Some("entry-point x authoriser matrix (17 x 8) x {with,without} counterparty allowance enumerated completely; amounts sampled")
+        Some("entry-point x authoriser matrix (17 x 10) x {with,without} counterparty allowance enumerated completely; amounts sampled")
     }
     fn cases(&self, tier: Tier) -> u64 {
         tier.pick(8000, 60000)
@@ -393,6 +413,19 @@ impl Property for C07 {
                 }
                 cx.count("must_succeed");
                 ensure_p!(call_via_probe(&w, &inv), "{:?}: a contract calling for itself was refused", ep);
+                Ok(())
+            }
+            Principal::AllAddressesAliasCalledContract | Principal::AllAddressesAliasNamedNobodySigns => {
+                let w = build(case, false);
+                let env = &w.s.env;
+                let who = if case.principal == Principal::AllAddressesAliasCalledContract { called_contract(&w, ep) } else { w.named.clone() };
+                let inv = invocation_with(&w, ep, amount, false, who.clone(), who.clone());
+                env.set_auths(&[]);
+                let snap0 = snapshot(env);
+                let ev0 = events_len(env);
+                cx.count("must_fail");
+                ensure_p!(!call_direct(&w, &inv), "{:?}: succeeded with every address argument set to {} and nobody authorising", ep, if case.principal == Principal::AllAddressesAliasCalledContract { "the called contract's own address" } else { "the named address" });
+                ensure_p!(snapshot(env) == snap0 && events_len(env) == ev0, "{:?}: refused call changed state", ep);
                 Ok(())
             }
             Principal::ContractNamingOther => {
